@@ -41,7 +41,7 @@ class BuiltinMixin(object):
     def str_upper(self, sv):
         if sv.is_py:
             return mk(sv.py.upper())
-        return SV(self.f_upper()(sv.term), STR)
+        return SV(self.f_upper()(self.term(sv, 'S')), STR)
 
     # ------------------------------------------------------------------ builtin functions
     def call_builtin(self, st, f, args, kwargs, fr):
@@ -765,19 +765,10 @@ class BuiltinMixin(object):
         if name == 'get':
             k = args[0]
             default = args[1] if len(args) > 1 else NONE_SV
-            if self.num_or_str(k) != 'S':
-                if not k.is_py and k.ty.kind in ('opt', 'any'):
-                    t = self.term(k, 'V')
-                    for st1, b in self.branch(st, Val.is_VStr(t)):
-                        if b:
-                            for r in self.dict_method(st1, recv, 'get', [SV(Val.sval(t), STR)] + args[1:], kwargs, fr):
-                                yield r
-                        else:
-                            yield st1, default
-                    return
+            kt = self.dict_key(k)
+            if kt is None:
                 yield st, default
                 return
-            kt = self.term(k, 'S')
             for st1, b in self.branch(st, dom[kt]):
                 if b:
                     yield self.from_heap(st1, val[kt], valty)
@@ -809,7 +800,9 @@ class BuiltinMixin(object):
         valty = d.ty.args[0]
         code = code_of(valty)
         self.check_assignable(val, valty, 'dict value')
-        kt = self.term(key, 'S')
+        kt = self.dict_key(key)
+        if kt is None:
+            raise OutOfReach('dict store with key %r' % (key,))
         st, t = self.store_term(st, val, code)
         a = d.term
         sk = 'shadow:%s' % a
@@ -824,7 +817,9 @@ class BuiltinMixin(object):
         return st
 
     def dict_delete(self, st, d, key):
-        kt = self.term(key, 'S')
+        kt = self.dict_key(key)
+        if kt is None:
+            raise OutOfReach('dict delete with key %r' % (key,))
         a = d.term
         present = self.H(st, 'Dd')[a][kt]
         for st1, b in self.branch(st, present):
